@@ -194,6 +194,33 @@ def table_u(facts, rep, w, rule="R09.1", only=None):
             rep.ob(rule, b.id, "%s: the served entry is the one re-timed" % op, ok, "" if ok else
                    "%s goes to the upper path without copy-up or an upper-exists guard: for a file served from a lower "
                    "layer the call fails with not-found although the overlay shows the file" % op, s.line)
+        # a setter that materialises an upper copy (copy-up) replaces the served entry by a fresh one: the other
+        # timestamps must be carried over from the entry served before, else they change with the call
+        own = lambda c: not (c.impl and c.impl["self_ty"] == w.overlay)
+        reach = ov.inter.reachable([b], through_dyn=False, stop=own)
+        copyups, transfers = [], set()
+        for rb in reach.values():
+            trr = get_tracer(facts, rb)
+            for s2 in ov.inter.sites(rb):
+                nm = sname(s2.path)
+                if not (s2.self_ty and s2.self_ty.endswith("VfsPath") and s2.args):
+                    continue
+                if nm in ("copy_file", "move_file") and len(s2.args) > 1 and ov.is_upper_plain(trr.operand(s2.args[1])):
+                    copyups.append(s2)
+                if nm in ("create_dir", "create_file", "create_dir_all") and ov.is_upper_plain(trr.operand(s2.args[0])):
+                    copyups.append(s2)
+                if nm in ("set_creation_time", "set_modification_time", "set_access_time") and len(s2.args) > 1:
+                    tv = norm(trr.operand(s2.args[1]))
+                    if any(x[0] == "call" and sname(x[1]) == "metadata" for x in walk(tv)):
+                        transfers.add(nm)
+        others = {"set_modification_time", "set_access_time"} - {op}
+        okc = not copyups or others <= transfers
+        n += 1
+        rep.ob(rule, b.id, "%s: no copy-up, or the copy keeps the served entry's other timestamps" % op, okc,
+               "no entry is materialised for the setter" if not copyups else "timestamps transferred: %s" % sorted(transfers) if okc else
+               "%s materialises a fresh upper-layer entry (%s at %s) and re-times only that: from then on the overlay serves the "
+               "copy, whose other timestamps are those of the copy-up, not of the entry shown before the call" %
+               (op, copyups[0].short, copyups[0].line), copyups[0].line if copyups else b.span)
     return n
 
 
@@ -394,4 +421,12 @@ def run(facts, rep, tier, ctx):
     from . import c10
     n = c10.marker_rules(facts, rep, ws, prefix="R09.5")
     rep.floor("marker protocol obligations (shared with C10)", n, 20)
+    # the async overlay is a separate copy of the same code
+    wa = World(facts, True)
+    rep.ob("R09.A", "async_vfs", "async world present", wa.present(), "", "")
+    if wa.present():
+        A = c10._Prefixed(rep, "A")
+        k = table_u(facts, A, wa, "R09.1") + materialisation_rules(facts, A, wa) + resolver_rules(facts, A, wa) + \
+            listing_rules(facts, A, wa) + c10.marker_rules(facts, A, wa, prefix="R09.5")
+        rep.floor("async overlay obligations", k, 55)
     rep.assume("layers behave as ordinary trees themselves (C01 applied to each layer)")
